@@ -371,6 +371,42 @@ func runC17(c *Ctx) {
 				Basis: why, Detail: "decodeRRs returns the error " + msg + " under no malformation test: a well-formed record (an ip6.arpa or service PTR, say) fails the whole message and none of its records is stored"})
 		})
 	}
+	// the mDNS duplicate filter drops a message only when it has seen the same message: what identifies an entry of the
+	// cache depends on the content of the message (mDNS responses all carry ID 0, so sender and ID alone make every later
+	// response of a station a "duplicate" for the life of the entry and its names are never extracted)
+	r.Rule("mdns-dedupe", "the mDNS duplicate cache is keyed by the content of the message", 2)
+	if pm := c.P.Method("handlers/dns_naming", "DNSHandler", "ProcessMDNS"); pm != nil {
+		kgm := core.NewKeyGen()
+		for _, site := range callsIn(pm, nameIs("getMDNSCache", "putMDNSCache")) {
+			// a digest (crc32, adler32, fnv, maphash, sha*, md5) of the message among the arguments: the DNS ID alone is
+			// content too, but it is 0 in every mDNS response
+			byContent := false
+			for _, a := range site.Common().Args {
+				for v := range dataSlice(pm, a) {
+					cl, isCall := v.(*ssa.Call)
+					if !isCall || cl.Common().StaticCallee() == nil {
+						continue
+					}
+					n := core.FuncName(cl.Common().StaticCallee())
+					if strings.HasPrefix(n, "hash/") || strings.HasPrefix(n, "crypto/sha") || strings.HasPrefix(n, "crypto/md5") || strings.HasPrefix(n, "(*hash/") || strings.HasPrefix(n, "(hash/") {
+						for _, ha := range cl.Common().Args {
+							for w := range dataSlice(pm, ha) {
+								if c2, isC2 := w.(*ssa.Call); isC2 && c2.Common().StaticCallee() != nil && core.FuncName(c2.Common().StaticCallee()) == "(packet.Frame).Payload" {
+									byContent = true
+								}
+							}
+						}
+					}
+				}
+			}
+			st := core.Proved
+			if !byContent {
+				st = core.Violated
+			}
+			r.Add(core.Obligation{Rule: "mdns-dedupe", Key: strings.TrimSuffix(kgm.Key("mdns-dedupe "+core.CalleeName(site)), "#0"), Func: core.FuncName(pm), Pos: c.P.Pos(core.PosOf(site.(ssa.Instruction))), Status: st,
+				Basis: "a key argument is a digest of frame.Payload()", Detail: "the duplicate cache is consulted with the sender and the DNS ID only: mDNS responses carry ID 0, so after one response from a station every different response from it is dropped for five minutes (alpha.local answered, then beta.local from the same MAC: no name extracted)"})
+		}
+	}
 	// every record that passes the length tests reaches the dispatch on its type: no path from the record-length test to
 	// the next iteration avoids the comparisons of the type field (a filter on class, TTL or anything else in between drops
 	// well-formed records - mDNS sets the top bit of the class on the records a responder owns)
